@@ -31,6 +31,21 @@ const (
 // client once the error has been written indicating the end of a command cycle.
 // https://www.postgresql.org/docs/current/static/protocol-error-fields.html
 func ErrorCode(writer *buffer.Writer, err error) error {
+	err = errorResponse(writer, err)
+	if err != nil {
+		return err
+	}
+
+	// NOTE: we are writing a ready for query message to indicate the end of a
+	// command cycle.
+	return readyForQuery(writer, types.ServerIdle)
+}
+
+// errorResponse writes the given error as a error response message without
+// ending the command cycle. It is used whenever the connection is closed after
+// the error has been reported and the client should never be told that the
+// server is ready for a query.
+func errorResponse(writer *buffer.Writer, err error) error {
 	desc := psqlerr.Flatten(err)
 
 	writer.Start(types.ServerErrorResponse)
@@ -78,12 +93,5 @@ func ErrorCode(writer *buffer.Writer, err error) error {
 	}
 
 	writer.AddNullTerminate()
-	err = writer.End()
-	if err != nil {
-		return err
-	}
-
-	// NOTE: we are writing a ready for query message to indicate the end of a
-	// command cycle.
-	return readyForQuery(writer, types.ServerIdle)
+	return writer.End()
 }
